@@ -4,6 +4,8 @@ Property theorems about the selection model `Model/MOO.lean`.
 -/
 import SharkVerif.Lemmas.MOO
 import SharkVerif.Lemmas.Hypervolume
+import SharkVerif.Lemmas.MOOInd
+import SharkVerif.Lemmas.MOOStep
 namespace SharkVerif.C14
 open SharkVerif.MOO SharkVerif.Pareto SharkVerif.HV
 
@@ -143,6 +145,184 @@ theorem steady_state_hv_monotone (m : Nat) (P : List Pt) (o r : Pt) (i : Nat)
 example : hvSpec [[1, 3], [3, 1]] [4, 4] ≤ hvSpec ((([[1, 3], [3, 1]] : List Pt) ++ [[2, 2]]).eraseIdx 0) [4, 4] ∧
     contribSpec (([[1, 3], [3, 1]] : List Pt) ++ [[2, 2]]) [4, 4] 0 ≤
       contribSpec (([[1, 3], [3, 1]] : List Pt) ++ [[2, 2]]) [4, 4] 2 := by
+  decide
+
+/-! ## the modelled indicators satisfy the contract of the selection theorems -/
+
+/-- **C14 (indicator contract, generic)**: the `leastContributors` loop shared by
+`HypervolumeIndicator`, `CrowdingDistance` and `AdditiveEpsilonIndicator` returns `K` distinct
+positions of the front for every front, archive and `K ≤ |front|`, whenever the one-point routine
+`leastContributor` returns a position inside the (non-empty) front it is given. -/
+theorem leastContributors_loop_contract (lc : LeastFn) (hlc : LcOK lc) (pts : List Pt) :
+    IndOK (mkIndicator lc pts) := mkIndicator_ok lc hlc pts
+
+/-- **C14 (indicator contract, the four modelled indicators)**: hypervolume indicator with a
+reference point (2-D and 3-D routines), hypervolume indicator without reference point (2-D),
+additive epsilon indicator, crowding distance (for every arithmetic, in particular IEEE doubles
+with NaN/inf): each returns `K` distinct positions of the front. -/
+theorem modelled_indicators_contract (pts : List Pt) (r : Pt) {α : Type} (N : CrowdNum α) :
+    IndOK (mkIndicator (hvLeastRef r) pts) ∧ IndOK (mkIndicator hvLeastNoRef2d pts) ∧
+    IndOK (mkIndicator epsLeast pts) ∧ IndOK (mkIndicator (crowdLeast N) pts) :=
+  ⟨mkIndicator_ok _ (hvLeastRef_ok r) pts, mkIndicator_ok _ hvLeastNoRef2d_ok pts,
+   mkIndicator_ok _ epsLeast_ok pts, mkIndicator_ok _ (crowdLeast_ok N) pts⟩
+
+example : mkIndicator epsLeast [[0, 3], [1, 1], [3, 0]] [0, 1, 2] [] 2 = [0, 2] := by decide
+
+
+/-- **C14 (selection count with the modelled indicators)**: the hypothesis on the indicator of
+`selection_count` is discharged: for every population of `m`-dimensional fitness vectors and
+every `1 ≤ mu ≤ n`, `IndicatorBasedSelection` with any indicator built on the shared loop
+(hypervolume, epsilon, crowding) marks exactly `mu` individuals. -/
+theorem selection_count_modelled_indicators (lc : LeastFn) (hlc : LcOK lc) (pts : List Pt) (m mu : Nat)
+    (hd : ∀ p ∈ pts, p.length = m) (hmu : 1 ≤ mu) (hn : mu ≤ pts.length) :
+    (select (mkIndicator lc pts) (fastSort pts) mu).count true = mu := by
+  have hfs : fastSort pts = pts.map (rankSpec pts) := fastSort_eq hd
+  apply select_count _ (mkIndicator_ok lc hlc pts) _ mu hmu (by rw [hfs]; simpa using hn)
+  intro i hi
+  rw [hfs] at hi ⊢
+  simp only [List.length_map] at hi
+  unfold rankAt
+  rw [List.getD_eq_getElem?_getD, List.getElem?_map, List.getElem?_eq_getElem hi]
+  exact rankSpec_pos _ _
+
+example : (select (mkIndicator epsLeast [[0, 3], [1, 1], [3, 0], [2, 2]])
+    (fastSort [[0, 3], [1, 1], [3, 0], [2, 2]]) 2) = [false, true, true, false] := by decide
+
+/-! ## PenalizingEvaluator -/
+
+/-- **C14 (reported value = f(closest feasible point))**: for every objective `f`, box, penalty
+factor and search point, `PenalizingEvaluator` stores the point unchanged, the unpenalized
+fitness is `f` at the closest feasible point (the point itself if it is feasible), the
+penalized fitness adds `alpha·‖x − closest‖²` to every objective, and the closest feasible
+point of a well-formed box is feasible. -/
+theorem evaluator_value_is_f_at_closest_feasible (f : List Int → Pt) (lo hi : List Int) (alpha : Int) (x : List Int) :
+    (penEval f lo hi alpha x).x = x ∧
+    (penEval f lo hi alpha x).unpen = f (clampBox lo hi x) ∧
+    (penEval f lo hi alpha x).pen = (f (clampBox lo hi x)).map (· + alpha * normSqDiff (clampBox lo hi x) x) ∧
+    (feasible lo hi x = true → clampBox lo hi x = x ∧ (penEval f lo hi alpha x).pen = f x) ∧
+    (boxOK lo hi = true → feasible lo hi (clampBox lo hi x) = true) :=
+  ⟨rfl, penEval_unpen .., penEval_pen .., fun h => ⟨clampBox_of_feasible _ _ _ h, penEval_pen_feasible _ _ _ _ _ h⟩,
+   fun h => feasible_clampBox _ _ _ h⟩
+
+example : penEval (fun x => [x.foldl (· + ·) 0, 7]) [0, 0] [2, 2] 3 [5, 1] =
+    { x := [5, 1], unpen := [3, 7], pen := [30, 34] } := by decide
+
+/-! ## TournamentSelection -/
+
+/-- **C14 (tournament)**: for every rank vector and every sequence of drawn indices the winner
+is one of the drawn candidates and no drawn candidate has a better rank. -/
+theorem tournament_winner_best_of_drawn (ranks : List Nat) (d : Nat) (ds : List Nat) :
+    tournament ranks (d :: ds) ∈ d :: ds ∧
+    ∀ c ∈ d :: ds, ranks.getD (tournament ranks (d :: ds)) 0 ≤ ranks.getD c 0 :=
+  tournament_fold_spec ranks ds d
+
+example : tournament [3, 1, 2, 1] [0, 3, 1] = 3 := by decide
+
+/-! ## population updates: size, consistency, box -/
+
+/-- **C14 (solution-set size, all seven update rules)**: every population update returns exactly
+`mu` individuals (the steady-state rules and MOEA/D: as many as there were parents). -/
+theorem update_size_invariant (ind : List Pt → Indicator) (parents offspring : List Indiv) (o : Indiv) (mu : Nat)
+    (hmu : mu ≤ parents.length + offspring.length) :
+    (genUpdate ind parents offspring mu).length = mu ∧
+    (steadyUpdate ind parents o mu).length = parents.length ∧
+    (ssmocmaUpdate ind parents o mu).length = parents.length ∧
+    (∀ groups grp apd, (rveaUpdate parents offspring groups grp apd mu).length = mu) ∧
+    (∀ t weights nbh (s : MoeadState), (moeadUpdate t weights nbh s o).parents.length = s.parents.length) := by
+  refine ⟨genUpdate_length ind parents offspring mu hmu, steadyUpdate_length ind parents o mu, ?_,
+    fun groups grp apd => rveaUpdate_length parents offspring groups grp apd mu hmu,
+    fun t weights nbh s => moeadUpdate_length t weights nbh s o⟩
+  unfold ssmocmaUpdate
+  simp only
+  rw [(sortRankOne_perm _ _).length_eq, steadyUpdate_length]
+
+/-- **C14 (no individual is invented)**: every member of the updated population carries the
+search point and both fitness vectors of a parent or an offspring — for all seven update rules. -/
+theorem update_members_from_pool (ind : List Pt → Indicator) (parents offspring : List Indiv) (o : Indiv) (mu : Nat) :
+    (∀ q ∈ genUpdate ind parents offspring mu, ∃ p ∈ parents ++ offspring, core q = core p) ∧
+    (∀ q ∈ steadyUpdate ind parents o mu, ∃ p ∈ parents ++ [o], core q = core p) ∧
+    (∀ q ∈ ssmocmaUpdate ind parents o mu, ∃ p ∈ parents ++ [o], core q = core p) ∧
+    (∀ groups grp apd, ∀ q ∈ rveaUpdate parents offspring groups grp apd mu, ∃ p ∈ parents ++ offspring, core q = core p) ∧
+    (∀ t weights nbh (s : MoeadState), ∀ q ∈ (moeadUpdate t weights nbh s o).parents, q = o ∨ q ∈ s.parents) := by
+  refine ⟨genUpdate_mem ind parents offspring mu, steadyUpdate_mem ind parents o mu, ?_,
+    fun groups grp apd => rveaUpdate_mem parents offspring groups grp apd mu,
+    fun t weights nbh s => moeadUpdate_mem t weights nbh s o⟩
+  intro q hq
+  unfold ssmocmaUpdate at hq
+  exact steadyUpdate_mem ind parents o mu q ((sortRankOne_perm _ _).mem_iff.mp hq)
+
+/-- **C14 (generational run: size, value = f(closest feasible point), in the box)**: for every
+indicator, objective, well-formed box, penalty factor, *arbitrary* variation operator followed
+by the clamp of SBX / polynomial mutation, every initial population of `mu` consistent in-box
+individuals and every sequence of random streams (any number of steps), the population always
+has `mu` members, each consistent and inside the box (NSGA-II, NSGA-III). -/
+theorem generational_run_invariants (ind : List Pt → Indicator) (f : List Int → Pt) (lo hi : List Int)
+    (hbox : boxOK lo hi = true) (alpha : Int) (vary : List Indiv → List Nat → List (List Int)) (mu : Nat)
+    (pop0 : List Indiv) (hlen : pop0.length = mu)
+    (h0 : ∀ p ∈ pop0, Consistent f lo hi p ∧ InBox lo hi p) (rnds : List (List Nat)) :
+    (runSteps (genStep ind f lo hi alpha (boundedVariation vary lo hi) mu) pop0 rnds).length = mu ∧
+    ∀ q ∈ runSteps (genStep ind f lo hi alpha (boundedVariation vary lo hi) mu) pop0 rnds,
+      Consistent f lo hi q ∧ InBox lo hi q := by
+  constructor
+  · apply runSteps_length _ mu _ rnds pop0 hlen
+    intro pop rnd hp
+    exact genUpdate_length ind pop _ mu (by omega)
+  · apply runSteps_inv _ _ _ rnds pop0 h0
+    intro pop rnd hp q hq
+    obtain ⟨p, hp', hc⟩ := genUpdate_mem ind pop _ mu q hq
+    rcases List.mem_append.mp hp' with h | h
+    · exact ⟨consistent_of_core hc (hp p h).1, inBox_of_core hc (hp p h).2⟩
+    · obtain ⟨x, hx, rfl⟩ := List.mem_map.mp h
+      obtain ⟨y, _, rfl⟩ := List.mem_map.mp hx
+      exact ⟨consistent_of_core hc (penEval_consistent ..), inBox_of_core hc (penEval_inBox f lo hi alpha y hbox)⟩
+
+/-- **C14 (generational run with unbounded variation: size and consistency)**: the same without
+the clamp (MO-CMA-ES: Gaussian sampling leaves the box): size and value = f(closest feasible
+point) still hold at every step. -/
+theorem generational_run_consistency (ind : List Pt → Indicator) (f : List Int → Pt) (lo hi : List Int)
+    (alpha : Int) (vary : List Indiv → List Nat → List (List Int)) (mu : Nat)
+    (pop0 : List Indiv) (hlen : pop0.length = mu)
+    (h0 : ∀ p ∈ pop0, Consistent f lo hi p) (rnds : List (List Nat)) :
+    (runSteps (genStep ind f lo hi alpha vary mu) pop0 rnds).length = mu ∧
+    ∀ q ∈ runSteps (genStep ind f lo hi alpha vary mu) pop0 rnds, Consistent f lo hi q := by
+  constructor
+  · apply runSteps_length _ mu _ rnds pop0 hlen
+    intro pop rnd hp
+    exact genUpdate_length ind pop _ mu (by omega)
+  · apply runSteps_inv _ _ _ rnds pop0 h0
+    intro pop rnd hp q hq
+    obtain ⟨p, hp', hc⟩ := genUpdate_mem ind pop _ mu q hq
+    rcases List.mem_append.mp hp' with h | h
+    · exact consistent_of_core hc (hp p h)
+    · obtain ⟨x, _, rfl⟩ := List.mem_map.mp h
+      exact consistent_of_core hc (penEval_consistent ..)
+
+/-- **C14 (steady-state run: size, consistency, box)**: SMS-EMOA (bounded variation); without the
+`InBox` part the proof is the same for the steady-state MO-CMA-ES. -/
+theorem steady_run_invariants (ind : List Pt → Indicator) (f : List Int → Pt) (lo hi : List Int)
+    (hbox : boxOK lo hi = true) (alpha : Int) (vary : List Indiv → List Nat → List Int) (mu : Nat)
+    (pop0 : List Indiv) (hlen : pop0.length = mu)
+    (h0 : ∀ p ∈ pop0, Consistent f lo hi p ∧ InBox lo hi p) (rnds : List (List Nat)) :
+    (runSteps (steadyStep ind f lo hi alpha (fun ps r => clampBox lo hi (vary ps r)) mu) pop0 rnds).length = mu ∧
+    ∀ q ∈ runSteps (steadyStep ind f lo hi alpha (fun ps r => clampBox lo hi (vary ps r)) mu) pop0 rnds,
+      Consistent f lo hi q ∧ InBox lo hi q := by
+  constructor
+  · apply runSteps_length _ mu _ rnds pop0 hlen
+    intro pop rnd hp
+    unfold steadyStep
+    rw [steadyUpdate_length]; exact hp
+  · apply runSteps_inv _ _ _ rnds pop0 h0
+    intro pop rnd hp q hq
+    obtain ⟨p, hp', hc⟩ := steadyUpdate_mem ind pop _ mu q hq
+    rcases List.mem_append.mp hp' with h | h
+    · exact ⟨consistent_of_core hc (hp p h).1, inBox_of_core hc (hp p h).2⟩
+    · simp only [List.mem_singleton] at h
+      subst h
+      exact ⟨consistent_of_core hc (penEval_consistent ..), inBox_of_core hc (penEval_inBox f lo hi alpha _ hbox)⟩
+
+example : (genStep (mkIndicator epsLeast) (fun x => [x.foldl (· + ·) 0, 3 - x.foldl (· + ·) 0]) [0] [3] 1
+      (boundedVariation (fun _ r => r.map fun v => [Int.ofNat v]) [0] [3]) 2
+      [{ x := [1], pen := [1, 2], unpen := [1, 2] }, { x := [2], pen := [2, 1], unpen := [2, 1] }] [7, 0]).map (·.x) = [[0], [3]] := by
   decide
 
 end SharkVerif.C14
